@@ -23,12 +23,12 @@ Proof. destruct x; reflexivity. Qed.
 Lemma main_step_eol : forall n f last prev s ts, (f <= n)%nat ->
   lex kw2008 f last s = LexOk ts ->
   syn_clean_of ts = true ->
-  no_directive s = true -> has_psl_word s = false ->
+  no_directive s = true ->
   can_be_char last = can_char prev ->
   forall f', (length s < f')%nat ->
   option_map (map norm_eol) (split_from LangLexer.keywords_2008 f' prev s) = Some (syn_lexemes_of (merge ts)).
 Proof.
-  induction n as [|n IH]; intros f last prev s ts Lf LX CL ND NP INV f' Lf'.
+  induction n as [|n IH]; intros f last prev s ts Lf LX CL ND INV f' Lf'.
   { destruct f; [discriminate LX|lia]. }
   destruct f as [|f0]; [discriminate LX|].
   rewrite lex_S in LX.
@@ -38,8 +38,7 @@ Proof.
   destruct un.
   { destruct (Tu eq_refl) as [-> _]. inversion LX; subst. discriminate CL. }
   pose proof (gap_trivia _ _ _ _ T (S (length s)) (Nat.lt_succ_diag_r _)) as GT. unfold byte in *. rewrite GT. clear GT.
-  rewrite <- Tb in ND, NP. apply no_dir_app in ND as [_ ND].
-  apply psl_suffix in NP.
+  rewrite <- Tb in ND. apply no_dir_app in ND as [_ ND].
   destruct r as [|c r0].
   { inversion LX; subst. reflexivity. }
   destruct (token kw2008 last (c :: r0)) as [[[k t] r'] e] eqn:TK.
@@ -50,7 +49,6 @@ Proof.
   apply clean_cons in CL as [-> CL'].
   assert (e = None) by (destruct e; [discriminate CD|reflexivity]). subst e. clear CD.
   pose proof ND as ND'. rewrite <- Gb in ND'. apply no_dir_app in ND' as [_ ND'].
-  pose proof NP as NPt. rewrite <- Gb in NPt. pose proof (psl_suffix _ _ NPt) as NP'. apply psl_head in NPt as [NPa NPr].
   assert (Lr' : (length r' < f'')%nat) by (unfold byte in *; lia).
   assert (EOFK : is_eof k = false) by (destruct k; try reflexivity; contradiction Gk; reflexivity).
   (* the common continuation: the head token is kept as it is *)
@@ -61,7 +59,7 @@ Proof.
             = Some (syn_lexemes_of (merge ((mkTok k t tr, None) :: ts')))).
   { intros a INV' MG. rewrite MG.
     rewrite (lexemes_cons _ _ _ _ _ EOFK). rewrite omap_cons.
-    rewrite (IH f0 (Some k) a r' ts' ltac:(lia) LX' CL' ND' NP' INV' f'' Lr'). reflexivity. }
+    rewrite (IH f0 (Some k) a r' ts' ltac:(lia) LX' CL' ND' INV' f'' Lr'). reflexivity. }
   destruct (letter c) eqn:LC.
   - (* identifier, reserved word, or bit string literal without length *)
     rewrite (token_letter _ _ _ _ LC) in TK. destruct (span ident_char (c :: r0)) as [ti ri] eqn:SP.
@@ -79,14 +77,14 @@ Proof.
       { rewrite merge_cons. cbn [t_kind t_text t_trivia is_ident is_str no_trivia andb]. rewrite IB. reflexivity. }
       rewrite MG.
       rewrite lexemes_cons by reflexivity.
-      rewrite <- QA in ND', NP'. change (34 :: body ++ rq) with ((34 :: body) ++ rq) in ND', NP'.
-      apply no_dir_app in ND' as [_ NDq]. apply psl_suffix in NP'.
+      rewrite <- QA in ND'. change (34 :: body ++ rq) with ((34 :: body) ++ rq) in ND'.
+      apply no_dir_app in ND' as [_ NDq].
       rewrite omap_cons.
       assert (Lrq : (length rq < f'')%nat).
       { apply (f_equal (@length _)) in E. rewrite app_length in E. cbn [length] in *. unfold byte in *. lia. }
-      rewrite (IH f1 (Some KStringLiteral) AfterOther rq ts2 ltac:(lia) LX2 CL2 NDq NP' eq_refl f'' Lrq).
+      rewrite (IH f1 (Some KStringLiteral) AfterOther rq ts2 ltac:(lia) LX2 CL2 NDq eq_refl f'' Lrq).
       rewrite <- app_assoc. reflexivity.
-    + rewrite SP. apply KEEP; [apply ident_after_agree; assumption|].
+    + rewrite SP. apply KEEP; [apply ident_after_agree|].
       rewrite merge_cons. cbn [t_kind t_text t_trivia].
       destruct (is_ident (ident_kind kw2008 ti) && is_base_specifier ti) eqn:C1; [|destruct (is_abs (ident_kind kw2008 ti)) eqn:C2; [|reflexivity]].
       * apply andb_true_iff in C1 as [_ IB].
@@ -148,14 +146,14 @@ Proof.
              change (forallb is_intc t) with (forallb int_char t). rewrite FI, IB. reflexivity. }
            rewrite MG.
            rewrite lexemes_cons by reflexivity.
-           change (x2 :: t2' ++ 34 :: r2) with ((x2 :: t2') ++ 34 :: r2) in ND', NP'.
-           apply no_dir_app in ND' as [_ ND']. apply psl_suffix in NP'.
-           rewrite <- QA in ND', NP'. change (34 :: body ++ rq) with ((34 :: body) ++ rq) in ND', NP'.
-           apply no_dir_app in ND' as [_ NDq]. apply psl_suffix in NP'.
+           change (x2 :: t2' ++ 34 :: r2) with ((x2 :: t2') ++ 34 :: r2) in ND'.
+           apply no_dir_app in ND' as [_ ND'].
+           rewrite <- QA in ND'. change (34 :: body ++ rq) with ((34 :: body) ++ rq) in ND'.
+           apply no_dir_app in ND' as [_ NDq].
            rewrite omap_cons.
            assert (Lrq : (length rq < f'')%nat).
            { cbn [length] in *. rewrite app_length in Lr'. cbn [length] in Lr'. unfold byte in *. lia. }
-           rewrite (IH f2 (Some KStringLiteral) AfterOther rq ts2 ltac:(lia) LX2 CL2 NDq NP' eq_refl f'' Lrq).
+           rewrite (IH f2 (Some KStringLiteral) AfterOther rq ts2 ltac:(lia) LX2 CL2 NDq eq_refl f'' Lrq).
            rewrite <- !app_assoc. reflexivity.
         -- apply KEEP; [reflexivity|]. rewrite merge_cons. cbn [t_kind t_text t_trivia is_ident is_abs andb].
            destruct ts' as [|[i_ di] [|[s_ ds] rest']]; try reflexivity.
@@ -174,10 +172,10 @@ Qed.
 
 
 Theorem syn_is_spec_eol : forall s,
-  clean_syn s = true -> no_directive s = true -> has_psl_word s = false ->
+  clean_syn s = true -> no_directive s = true ->
   option_map (map norm_eol) (split_spec LangLexer.keywords_2008 s) = lexemes_syn s.
 Proof.
-  intros s CL ND NP.
+  intros s CL ND.
   unfold lexemes_syn, clean_syn, syn_result, token_stream, synlex in *. unfold byte in *.
   destruct (lex kw2008 (S (length s)) None s) as [ts| |] eqn:LX; try discriminate CL.
   cbn [option_map snd]. unfold split_spec.
@@ -191,6 +189,6 @@ Qed.
 Definition ex_syn_eol : list N :=
   [120; 32; 58; 61; 32; 34; 97; 13; 10; 98; 34; 32; 45; 45; 32; 99; 13; 40; 39; 13; 39; 41].
 Lemma ex_syn_eol_ok : clean_syn ex_syn_eol = true /\ no_directive ex_syn_eol = true
-  /\ has_psl_word ex_syn_eol = false
+
   /\ lexemes_syn ex_syn_eol = Some [[120]; [58; 61]; [34; 97; 10; 98; 34]; [40]; [39; 10; 39]; [41]].
 Proof. vm_compute. repeat split. Qed.
